@@ -167,3 +167,47 @@ def canon_with_arms(fn, fn_roles, scrut, arm_roles):
                         mp[role[0]] = role[0] + "__other"
                     rename(a, mp)
     return f, missing
+
+
+def canon_fields(fn, specs, extra_roles=()):
+    """Rename pattern bindings of struct fields to canonical names: specs = [(canonical, Variant, field)].
+    Every occurrence (all arms / if-lets) is renamed; a variant/field that is never bound is ignored.
+    extra_roles are ordinary canon() roles applied afterwards."""
+    f = copy.deepcopy(fn)
+    for canonical, variant, field in specs:
+        seen_any = True
+        guard = 0
+        while seen_any and guard < 8:
+            guard += 1
+            seen_any = False
+            for n in walk(f["body"]):
+                if n["k"] == "PStruct" and last(n["path"]) == variant:
+                    for fl in n["fields"]:
+                        if fl["name"] != field:
+                            continue
+                        if fl["shorthand"]:
+                            actual = field
+                        else:
+                            p = fl["pat"]
+                            while p["k"] == "PRef":
+                                p = p["pat"]
+                            actual = p["name"] if p["k"] == "PIdent" else None
+                        if actual and actual != canonical:
+                            rename(f["body"], {actual: canonical})
+                            seen_any = True
+                            break
+                if seen_any:
+                    break
+    missing = []
+    for role in extra_roles:
+        actual = discover(f, role)
+        if actual is None:
+            if role[-1] != "optional":
+                missing.append(role[0])
+            continue
+        if actual != role[0]:
+            rename(f["body"], {actual: role[0]})
+            for i in f["sig"]["inputs"]:
+                if not i.get("self"):
+                    rename(i["pat"], {actual: role[0]})
+    return f, missing
